@@ -81,8 +81,8 @@ def handle (fn : String) (a : Json) : J.R Json := do
     let (n, fs) ← clsOf (← field a "cls")
     let o ← objFields (← field a "obj")
     pure (obj [("ser", ofR (serBytes env fs o)), ("rt", ofR (roundtripBytes env n fs o)),
-               ("norm", ofV (.obj n (normF fs o))), ("inhabits", ofBool (inhabitsF env fs o)),
-               ("supported", ofBool (supportedF fs)), ("noTransient", ofBool (noTransientF fs))])
+               ("norm", ofV (.obj n (normF env fs o))), ("inhabits", ofBool (inhabitsF env fs o)),
+               ("supported", ofBool (supportedF fs)), ("exact", ofBool (exactF fs))])
   | "frombytes" =>
     let (n, fs) ← clsOf (← field a "cls")
     pure (ofR (fromBytes env n fs (← toV (← field a "data"))))
